@@ -437,5 +437,5 @@ def verify_json(obj: dict, resolver, allow=None) -> Result:
     if undecided is not None:
         return undecided
     if len(b64_modes) > 1:
-        return Result("REJECT", "b64 differs between signatures (RFC 7797 3)", "policy")
+        return Result("REJECT", "b64 differs between signatures (RFC 7797 3): no single payload is covered by all of them", "structure")
     return Result("ACCEPT", payload=payload, headers=headers)
